@@ -296,7 +296,7 @@ Definition pc_todo (c : cthread) : list nat :=
 
 (* group 1: shape of the state and who holds which lock *)
 Record inv1 (st : state) : Prop := mkInv1 {
-  i_W  : forall n d pc, T st n = CReq d pc -> d < length (dirs st);
+  i_W  : forall n d pc, n < length (thr st) -> T st n = CReq d pc -> d < length (dirs st);
   i_B1 : forall d e, d_store (D st d) = Some e -> e < length (ents st);
   i_B2 : forall n e, pc_ent (T st n) = Some e -> e < length (ents st);
   i_B4 : forall n d, In d (pc_todo (T st n)) -> d < length (dirs st);
@@ -354,7 +354,7 @@ Ltac facts Hinv :=
   try (match goal with HI : e_idle (E ?st ?e0) = _ |- _ =>
          assert (He0 : e0 < length (ents st)) by (apply E_in_range; let Hx := fresh "Hx" in intro Hx; rewrite Hx in HI; discriminate);
          pose proof (i_B5 _ Hinv _ He0) as Hd0 end);
-  try (match goal with HT : T ?st ?n0 = CReq ?d0 _ |- _ => pose proof (i_W _ Hinv _ _ _ HT) as Hwd0 end);
+  try (match goal with HT : T ?st ?n0 = CReq ?d0 _, Hn : ?n0 < length (thr ?st) |- _ => pose proof (i_W _ Hinv _ _ _ Hn HT) as Hwd0 end);
   try (match goal with HT : T ?st ?n0 = _ |- _ =>
          let H := fresh "Hb2" in pose proof (i_B2 _ Hinv n0) as H; rewrite HT in H; simpl in H;
          specialize (H _ eq_refl); pose proof (i_B5 _ Hinv _ H) as Hb5 end);
@@ -394,13 +394,12 @@ Proof.
 Qed.
 
 Lemma pres_W : forall fixed st t st', inv1 st -> step fixed st t = Some st' ->
-  forall n d pc, T st' n = CReq d pc -> d < length (dirs st').
+  forall n d pc, n < length (thr st') -> T st' n = CReq d pc -> d < length (dirs st').
 Proof.
   intros fixed st t st' Hinv H.
-  step_cases H; facts Hinv; intros nX dX pcX; autorewrite with c12; case_eqb; simpl; intros Hx;
+  step_cases H; facts Hinv; intros nX dX pcX; autorewrite with c12; case_eqb; simpl; intros HnX Hx;
     try (inversion Hx; subst); try lia;
-    try (pose proof (i_W _ Hinv _ _ _ Hx); lia).
-  all: showrem.
+    try (pose proof (i_W _ Hinv _ _ _ HnX Hx); lia).
 Qed.
 
 Lemma pres_B2 : forall fixed st t st', inv1 st -> step fixed st t = Some st' ->
@@ -410,7 +409,6 @@ Proof.
   step_cases H; facts Hinv; intros nX eX; autorewrite with c12; case_eqb; simpl; intros Hx;
     try (inversion Hx; subst); try lia;
     try (pose proof (i_B2 _ Hinv _ _ Hx); lia).
-  all: showrem.
 Qed.
 
 Lemma pres_B4 : forall fixed st t st', inv1 st -> step fixed st t = Some st' ->
@@ -551,7 +549,19 @@ Proof.
   - left. destruct n; reflexivity.
   - destruct n; simpl.
     + destruct s; simpl; [right; left; eexists; split; [reflexivity | left; reflexivity] | right; right; reflexivity].
-    + destruct (IH n) as [Hq|[[d [Hq Hin]]|Hq]]; auto. right; left. exists d. split; auto. right; auto.
+    + destruct (IH n) as [Hq|[[d [Hq Hin]]|Hq]].
+      * left; auto.
+      * right; left. exists d. split; auto; right; auto.
+      * right; right; auto.
+Qed.
+
+Lemma init_thread_real : forall nd specs n, n < length (thr (init nd specs)) ->
+  (exists d, T (init nd specs) n = CReq d RAcqSL) \/ T (init nd specs) n = CDel DAcqSL.
+Proof.
+  intros nd specs n. rewrite T_init. simpl. revert n. induction specs as [|s r IH]; intros n Hn; simpl in *; try lia.
+  destruct n.
+  - destruct s; simpl; eauto.
+  - apply IH. lia.
 Qed.
 
 Lemma inv1_init : forall nd specs, Forall (spec_ok nd) specs -> inv1 (init nd specs).
@@ -560,11 +570,9 @@ Proof.
   assert (HE : forall e, E (init nd specs) e = dent) by (intros; unfold E; simpl; destruct e; reflexivity).
   assert (HD : forall d, D (init nd specs) d = ddir) by (intros; unfold D; simpl; apply nth_repeat_ddir).
   constructor; intros.
-  - destruct (init_thread_cases nd specs n) as [Hq|[[d' [Hq Hin]]|Hq]]; rewrite Hq in H; try discriminate.
-    + unfold dthr in H. inversion H; subst. simpl. rewrite Forall_forall in Hok.
-      (* the default thread is a finished request on directory 0: no obligation unless it is a real one *)
-      exfalso. clear -H. discriminate.
-    + inversion H; subst. simpl. rewrite repeat_length. rewrite Forall_forall in Hok. apply (Hok _ Hin).
+  - destruct (init_thread_cases nd specs n) as [Hq|[[d' [Hq Hin]]|Hq]]; rewrite Hq in H0; try discriminate.
+    + apply init_thread_real in H. rewrite Hq in H. destruct H as [[d1 H]|H]; discriminate.
+    + inversion H0; subst. simpl. rewrite repeat_length. rewrite Forall_forall in Hok. apply (Hok _ Hin).
   - rewrite HD in H. discriminate.
   - destruct (init_thread_cases nd specs n) as [Hq|[[d' [Hq Hin]]|Hq]]; rewrite Hq in H; discriminate.
   - destruct (init_thread_cases nd specs n) as [Hq|[[d' [Hq Hin]]|Hq]]; rewrite Hq in H; simpl in H; contradiction.
@@ -581,3 +589,377 @@ Proof.
   - destruct (init_thread_cases nd specs n) as [Hq|[[d' [Hq Hin]]|Hq]]; rewrite Hq in H; discriminate.
   - rewrite HE. reflexivity.
 Qed.
+
+(* ------------------------------------------------------------------ *)
+(* group 2: open flags, map entries, handles, directories *)
+
+Definition open_pc (c : cthread) : option nat :=
+  match c with
+  | CReq _ (RBegin e) | CReq _ (REnd e) | CReq _ (RRUnlock e true) => Some e
+  | _ => None
+  end.
+
+Definition req_dir (c : cthread) : option nat := match c with CReq d _ => Some d | _ => None end.
+
+(* deletion thread working on entry e of directory d *)
+Definition del_cur (c : cthread) : option (nat * nat) :=
+  match c with
+  | CDel (DLockAnn e (d :: _)) | CDel (DLockAcq e (d :: _)) | CDel (DNilChk e (d :: _))
+  | CDel (DClose e (d :: _)) | CDel (DUnlock e (d :: _)) => Some (e, d)
+  | _ => None
+  end.
+
+Definition post_close (p : ipc) : bool :=
+  match p with
+  | IUnlock | IAcqSL | IDel | IRelSL | IUnlockNil | IAcqSLp | IDelp | IRelSLp | IUnlockP => true
+  | _ => false
+  end.
+Definition own_map (p : ipc) : bool := match p with IClose | IAcqSLp | IDelp => true | _ => false end.
+
+Record inv2 (st : state) : Prop := mkInv2 {
+  i_A2 : forall n e, open_pc (T st n) = Some e -> e_open (E st e) = true;
+  i_B3 : forall n d e, req_dir (T st n) = Some d -> pc_ent (T st n) = Some e -> e_dir (E st e) = d;
+  i_A3 : forall e, e_open (E st e) = true -> d_store (D st (e_dir (E st e))) = Some e;
+  i_A4 : forall d, d_handles (D st d) =
+                   match d_store (D st d) with Some e => if e_open (E st e) then 1 else 0 | None => 0 end;
+  i_A5 : forall d e, d_store (D st d) = Some e -> e_dir (E st e) = d;
+  i_A6 : forall d e, d_store (D st d) = Some e -> d_exists (D st d) = true;
+  i_I0 : forall e, e_idle (E st e) = IClose -> e_open (E st e) = true;
+  i_I1 : forall e, post_close (e_idle (E st e)) = true -> e_open (E st e) = false;
+  i_I2 : forall e, own_map (e_idle (E st e)) = true -> d_store (D st (e_dir (E st e))) = Some e;
+  i_R1 : forall n d r e, T st n = CDel (DDelEntry (d :: r)) -> d_store (D st d) = Some e ->
+                         e_open (E st e) = false /\ own_map (e_idle (E st e)) = false;
+  i_R2 : forall n d r, T st n = CDel (DRemove (d :: r)) -> d_store (D st d) = None;
+  i_D1 : forall n e d, del_cur (T st n) = Some (e, d) -> d_store (D st d) = Some e;
+  i_D2 : forall n e todo, T st n = CDel (DUnlock e todo) -> e_open (E st e) = false;
+  i_D3 : forall n e todo, T st n = CDel (DClose e todo) -> e_open (E st e) = true
+}.
+
+(* a second thread claiming the exclusive lock of an entry contradicts the recorded writer *)
+Ltac other_writer Hinv :=
+  match goal with
+  | Hx : T ?st ?nX = CDel ?pc |- _ =>
+      match pc with context [?c ?e ?todo] =>
+        let Hq := fresh "Hq" in
+        first [ assert (Hq : e_w (E st e) = Some (TC nX, true))
+                  by (apply (i_L2b _ Hinv e (TC nX)); simpl; rewrite Hx; reflexivity)
+              | assert (Hq : e_w (E st e) = Some (TC nX, false))
+                  by (apply (i_L2b _ Hinv e (TC nX)); simpl; rewrite Hx; reflexivity) ];
+        congruence
+      end
+  | Hx : e_idle (E ?st ?e) = ?p |- _ =>
+      let Hq := fresh "Hq" in
+      first [ assert (Hq : e_w (E st e) = Some (TI e, true))
+                by (apply (i_L2b _ Hinv e (TI e)); simpl; rewrite Hx; auto)
+            | assert (Hq : e_w (E st e) = Some (TI e, false))
+                by (apply (i_L2b _ Hinv e (TI e)); simpl; rewrite Hx; auto) ];
+      congruence
+  end.
+
+(* a thread that refers to the entry about to be created does not exist *)
+Ltac fresh_entry Hinv :=
+  match goal with
+  | Hx : T ?st ?nX = ?c |- _ =>
+      let Hq := fresh "Hq" in
+      pose proof (i_B2 _ Hinv nX (length (ents st))) as Hq; rewrite Hx in Hq; simpl in Hq;
+      specialize (Hq eq_refl); lia
+  end.
+
+(* readers exclude an acquired writer *)
+Lemma no_reader_when_written : forall st e t n, inv1 st -> e_w (E st e) = Some (t, true) ->
+  rd_pc (T st n) = Some e -> False.
+Proof.
+  intros st e t n Hinv Hw Hr. pose proof (i_A1 _ Hinv _ _ Hw) as Hn.
+  pose proof (i_L3b _ Hinv _ _ Hr) as Hi. rewrite Hn in Hi. contradiction.
+Qed.
+
+Lemma open_rd_pc : forall c e, open_pc c = Some e -> rd_pc c = Some e.
+Proof. intros [d p|p] e; try destruct p; simpl; try discriminate; auto. destruct ok; auto; discriminate. Qed.
+
+Lemma pres_A2 : forall fixed st t st', inv1 st -> inv2 st -> step fixed st t = Some st' ->
+  forall n e, open_pc (T st' n) = Some e -> e_open (E st' e) = true.
+Proof.
+  intros fixed st t st' Hinv H2 H.
+  step_cases H; facts Hinv; intros nX eX; pose proof (i_A2 _ H2 nX eX) as Ha;
+    autorewrite with c12; case_eqb; simpl; autorewrite with c12; simpl;
+    intros Hx; try discriminate; try (injection Hx; intros; subst); auto; try congruence;
+    try (exfalso; eapply no_reader_when_written; [exact Hinv | exact Hw0 | apply open_rd_pc; exact Hx]);
+    try (apply Ha; rewrite HT; reflexivity).
+Qed.
+
+Lemma pres_B3 : forall fixed st t st', inv1 st -> inv2 st -> step fixed st t = Some st' ->
+  forall n d e, req_dir (T st' n) = Some d -> pc_ent (T st' n) = Some e -> e_dir (E st' e) = d.
+Proof.
+  intros fixed st t st' Hinv H2 H.
+  step_cases H; facts Hinv; intros nX dX eX; pose proof (i_B3 _ H2 nX dX eX) as Ha;
+    autorewrite with c12; case_eqb; simpl; autorewrite with c12; simpl;
+    intros Hx Hy; try discriminate; try (injection Hx; intros; subst); try (injection Hy; intros; subst);
+    auto; try congruence; try lia;
+    try (apply Ha; rewrite HT; reflexivity);
+    try (pose proof (i_B2 _ Hinv _ _ Hy); lia).
+  apply (i_A5 _ H2); auto.
+Qed.
+
+Lemma pres_I0 : forall fixed st t st', inv1 st -> inv2 st -> step fixed st t = Some st' ->
+  forall e, e_idle (E st' e) = IClose -> e_open (E st' e) = true.
+Proof.
+  intros fixed st t st' Hinv H2 H.
+  step_cases H; facts Hinv; intros eX; pose proof (i_I0 _ H2 eX) as Ha;
+    autorewrite with c12; case_eqb; simpl; autorewrite with c12; simpl;
+    intros Hx; try discriminate; auto; try congruence.
+  exfalso. other_writer Hinv.
+Qed.
+
+Lemma pres_I1 : forall fixed st t st', inv1 st -> inv2 st -> step fixed st t = Some st' ->
+  forall e, post_close (e_idle (E st' e)) = true -> e_open (E st' e) = false.
+Proof.
+  intros fixed st t st' Hinv H2 H.
+  step_cases H; facts Hinv; intros eX; pose proof (i_I1 _ H2 eX) as Ha;
+    autorewrite with c12; case_eqb; simpl; autorewrite with c12; simpl;
+    intros Hx; try discriminate; auto; try congruence;
+    try (apply Ha; rewrite HI; reflexivity).
+  destruct (e_idle (E st e)); simpl in *; try discriminate; specialize (Ha eq_refl); congruence.
+Qed.
+
+Lemma pres_D2 : forall fixed st t st', inv1 st -> inv2 st -> step fixed st t = Some st' ->
+  forall n e todo, T st' n = CDel (DUnlock e todo) -> e_open (E st' e) = false.
+Proof.
+  intros fixed st t st' Hinv H2 H.
+  step_cases H; facts Hinv; intros nX eX todoX; pose proof (i_D2 _ H2 nX eX todoX) as Ha;
+    autorewrite with c12; case_eqb; simpl; autorewrite with c12; simpl;
+    intros Hx; try discriminate; try (injection Hx; intros; subst); auto; try congruence.
+  exfalso. fresh_entry Hinv.
+Qed.
+
+Lemma pres_D3 : forall fixed st t st', inv1 st -> inv2 st -> step fixed st t = Some st' ->
+  forall n e todo, T st' n = CDel (DClose e todo) -> e_open (E st' e) = true.
+Proof.
+  intros fixed st t st' Hinv H2 H.
+  step_cases H; facts Hinv; intros nX eX todoX; pose proof (i_D3 _ H2 nX eX todoX) as Ha;
+    autorewrite with c12; case_eqb; simpl; autorewrite with c12; simpl;
+    intros Hx; try discriminate; try (injection Hx; intros; subst); auto; try congruence;
+    exfalso; other_writer Hinv.
+Qed.
+
+
+(* a second thread inside a shardLock section contradicts the recorded holder *)
+Ltac other_sl Hinv :=
+  match goal with
+  | Hx : T ?st ?nX = ?c, Hs : sl ?st = Some ?t |- _ =>
+      let Hq := fresh "Hq" in
+      assert (Hq : sl st = Some (TC nX)) by (apply (i_L1b _ Hinv (TC nX)); simpl; rewrite Hx; reflexivity);
+      congruence
+  | Hx : e_idle (E ?st ?e) = ?p, Hs : sl ?st = Some ?t |- _ =>
+      let Hq := fresh "Hq" in
+      assert (Hq : sl st = Some (TI e)) by (apply (i_L1b _ Hinv (TI e)); simpl; rewrite Hx; reflexivity);
+      congruence
+  end.
+
+Lemma del_cur_sl : forall c p, del_cur c = Some p -> sl_pc c = true.
+Proof. intros [d q|q] p; try destruct q; simpl; try discriminate; auto. Qed.
+
+Ltac other_sl_cur Hinv :=
+  match goal with
+  | Hx : del_cur (T ?st ?nX) = Some _, Hs : sl ?st = Some ?t |- _ =>
+      let Hq := fresh "Hq" in
+      assert (Hq : sl st = Some (TC nX)) by (apply (i_L1b _ Hinv (TC nX)); simpl; eapply del_cur_sl; exact Hx);
+      congruence
+  end.
+
+Lemma pres_A5 : forall fixed st t st', inv1 st -> inv2 st -> step fixed st t = Some st' ->
+  forall d e, d_store (D st' d) = Some e -> e_dir (E st' e) = d.
+Proof.
+  intros fixed st t st' Hinv H2 H.
+  step_cases H; facts Hinv; intros dX eX; pose proof (i_A5 _ H2 dX eX) as Ha;
+    autorewrite with c12; case_eqb; simpl; autorewrite with c12; simpl;
+    intros Hx; try discriminate; try (injection Hx; intros; subst); auto; try congruence; try lia;
+    try (pose proof (i_B1 _ Hinv _ _ Hx); lia).
+Qed.
+
+Lemma pres_A6 : forall fixed st t st', inv1 st -> inv2 st -> step fixed st t = Some st' ->
+  forall d e, d_store (D st' d) = Some e -> d_exists (D st' d) = true.
+Proof.
+  intros fixed st t st' Hinv H2 H.
+  step_cases H; facts Hinv; intros dX eX; pose proof (i_A6 _ H2 dX eX) as Ha;
+    autorewrite with c12; case_eqb; simpl; autorewrite with c12; simpl;
+    intros Hx; try discriminate; try (injection Hx; intros; subst); auto; try congruence; try lia.
+  pose proof (i_R2 _ H2 _ _ _ HT). congruence.
+Qed.
+
+Lemma pres_R2 : forall fixed st t st', inv1 st -> inv2 st -> step fixed st t = Some st' ->
+  forall n d r, T st' n = CDel (DRemove (d :: r)) -> d_store (D st' d) = None.
+Proof.
+  intros fixed st t st' Hinv H2 H.
+  step_cases H; facts Hinv; intros nX dX rX; pose proof (i_R2 _ H2 nX dX rX) as Ha;
+    autorewrite with c12; case_eqb; simpl; autorewrite with c12; simpl;
+    intros Hx; try discriminate; try (injection Hx; intros; subst); auto; try congruence; try lia;
+    try (exfalso; other_sl Hinv).
+Qed.
+
+Lemma pres_D1 : forall fixed st t st', inv1 st -> inv2 st -> step fixed st t = Some st' ->
+  forall n e d, del_cur (T st' n) = Some (e, d) -> d_store (D st' d) = Some e.
+Proof.
+  intros fixed st t st' Hinv H2 H.
+  step_cases H; facts Hinv; intros nX eX dX; pose proof (i_D1 _ H2 nX eX dX) as Ha;
+    autorewrite with c12; case_eqb; simpl; autorewrite with c12; simpl;
+    intros Hx; try discriminate; try (injection Hx; intros; subst); auto; try congruence; try lia;
+    try (exfalso; other_sl_cur Hinv);
+    try (destruct todo; try discriminate; injection Hx; intros; subst; try congruence;
+         try (apply Ha; rewrite HT; reflexivity)).
+Qed.
+
+Lemma pres_A3 : forall fixed st t st', inv1 st -> inv2 st -> step fixed st t = Some st' ->
+  forall e, e_open (E st' e) = true -> d_store (D st' (e_dir (E st' e))) = Some e.
+Proof.
+  intros fixed st t st' Hinv H2 H.
+  step_cases H; facts Hinv; intros eX; pose proof (i_A3 _ H2 eX) as Ha;
+    autorewrite with c12; case_eqb; simpl; autorewrite with c12; simpl;
+    intros Hx; try discriminate; auto; try congruence; try lia;
+    simpl in *; try congruence; try (specialize (Ha Hx));
+    try (match goal with HI : e_idle (E ?s ?e1) = _ |- _ =>
+           pose proof (i_I1 _ H2 e1) as Hq1; rewrite HI in Hq1; simpl in Hq1; specialize (Hq1 eq_refl) end);
+    try (match goal with HI : e_idle (E ?s ?e1) = _ |- _ =>
+           pose proof (i_I2 _ H2 e1) as Hq2; rewrite HI in Hq2; simpl in Hq2; specialize (Hq2 eq_refl) end);
+    try (match goal with HT : T _ _ = CDel (DDelEntry _) |- _ =>
+           destruct (i_R1 _ H2 _ _ _ _ HT Ha) end);
+    try congruence.
+Qed.
+
+Lemma pres_A4 : forall fixed st t st', inv1 st -> inv2 st -> step fixed st t = Some st' ->
+  forall d, d_handles (D st' d) =
+            match d_store (D st' d) with Some e => if e_open (E st' e) then 1 else 0 | None => 0 end.
+Proof.
+  intros fixed st t st' Hinv H2 H.
+  step_cases H; facts Hinv; intros dX; pose proof (i_A4 _ H2 dX) as Ha;
+    try (match goal with HI : e_idle (E ?s ?e1) = _ |- _ =>
+           pose proof (i_I1 _ H2 e1) as Hq1; rewrite HI in Hq1; simpl in Hq1; specialize (Hq1 eq_refl) end);
+    try (match goal with HI : e_idle (E ?s ?e1) = _ |- _ =>
+           pose proof (i_I2 _ H2 e1) as Hq2; rewrite HI in Hq2; simpl in Hq2; specialize (Hq2 eq_refl) end);
+    try (match goal with HI : e_idle (E ?s ?e1) = IClose |- _ =>
+           pose proof (i_I0 _ H2 e1 HI) as Ho; pose proof (i_A3 _ H2 _ Ho) as Hso end);
+    try (match goal with HT : T _ _ = CDel (DClose _ _) |- _ =>
+           pose proof (i_D3 _ H2 _ _ _ HT) as Ho; pose proof (i_A3 _ H2 _ Ho) as Hso end);
+    autorewrite with c12; case_eqb; simpl; autorewrite with c12; simpl; auto;
+    try (rewrite Hso in *; rewrite Ho in Ha; rewrite Ha; autorewrite with c12; rewrite Nat.eqb_refl; reflexivity);
+    try (destruct (d_store (D st dX)) as [eY|] eqn:Hs; autorewrite with c12; case_eqb; simpl;
+         autorewrite with c12; auto;
+         try (pose proof (i_B1 _ Hinv _ _ Hs); lia);
+         try (pose proof (i_A5 _ H2 _ _ Hs); congruence); fail);
+    try congruence.
+  - rewrite Nat.eqb_refl; simpl; rewrite Ha, Heqo; reflexivity.
+  - destruct (d_store (D st n)) eqn:Hs; auto.
+    destruct (i_R1 _ H2 _ _ _ _ HT Hs) as [Hq _]. rewrite Hq in Ha. auto.
+  - rewrite Heqo in Ha; rewrite Hq1 in Ha; exact Ha.
+  - rewrite Hq2 in Ha; rewrite Hq1 in Ha; exact Ha.
+Qed.
+
+Lemma pres_I2 : forall fixed st t st', inv1 st -> inv2 st -> step fixed st t = Some st' ->
+  forall e, own_map (e_idle (E st' e)) = true -> d_store (D st' (e_dir (E st' e))) = Some e.
+Proof.
+  intros fixed st t st' Hinv H2 H.
+  step_cases H; facts Hinv; intros eX; pose proof (i_I2 _ H2 eX) as Ha;
+    try (match goal with HI : e_idle (E ?s ?e1) = _ |- _ =>
+           pose proof (i_I2 _ H2 e1) as Hq2; rewrite HI in Hq2; simpl in Hq2; specialize (Hq2 eq_refl) end);
+    try (match goal with HI : e_idle (E ?s ?e1) = IClose |- _ =>
+           pose proof (i_I0 _ H2 e1 HI) as Ho; pose proof (i_A3 _ H2 _ Ho) as Hso end);
+    autorewrite with c12; case_eqb; simpl; autorewrite with c12; simpl;
+    intros Hx; try discriminate; auto; try congruence; try lia;
+    simpl in *; try congruence; try (specialize (Ha Hx));
+    try (match goal with HT : T _ _ = CDel (DDelEntry _) |- _ =>
+           destruct (i_R1 _ H2 _ _ _ _ HT Ha) end);
+    try congruence.
+  - apply Ha; destruct (e_idle (E st e)); simpl in *; auto.
+  - apply (i_A3 _ H2); auto.
+Qed.
+
+Lemma pres_R1 : forall fixed st t st', inv1 st -> inv2 st -> step fixed st t = Some st' ->
+  forall n d r e, T st' n = CDel (DDelEntry (d :: r)) -> d_store (D st' d) = Some e ->
+                  e_open (E st' e) = false /\ own_map (e_idle (E st' e)) = false.
+Proof.
+  intros fixed st t st' Hinv H2 H.
+  step_cases H; facts Hinv; intros nX dX rX eX; pose proof (i_R1 _ H2 nX dX rX eX) as Ha;
+    autorewrite with c12; case_eqb; simpl; autorewrite with c12; simpl;
+    intros Hx Hy; try discriminate; try (injection Hx; intros; subst); auto; try congruence; try lia;
+    try (exfalso; other_sl Hinv);
+    try (destruct (Ha Hx Hy) as [Ha1 Ha2]; try rewrite HI in *; simpl in *; split; auto; congruence).
+  - split; [apply (i_D2 _ H2 _ _ _ HT) |].
+    destruct (own_map (e_idle (E st e))) eqn:Hom; auto. exfalso.
+    assert (Hiw : iw_pc (e_idle (E st e)) = Some true) by (destruct (e_idle (E st e)); simpl in *; congruence).
+    pose proof (i_L2b _ Hinv e (TI e) true (conj eq_refl Hiw)). congruence.
+  - exfalso. pose proof (i_D1 _ H2 n0 e dX) as Hq; rewrite HT in Hq; specialize (Hq eq_refl); congruence.
+Qed.
+
+
+
+
+Lemma inv2_step : forall fixed st t st', inv1 st -> inv2 st -> step fixed st t = Some st' -> inv2 st'.
+Proof.
+  intros fixed st t st' H1 H2 H. constructor.
+  - eapply pres_A2; eauto.
+  - eapply pres_B3; eauto.
+  - eapply pres_A3; eauto.
+  - eapply pres_A4; eauto.
+  - eapply pres_A5; eauto.
+  - eapply pres_A6; eauto.
+  - eapply pres_I0; eauto.
+  - eapply pres_I1; eauto.
+  - eapply pres_I2; eauto.
+  - eapply pres_R1; eauto.
+  - eapply pres_R2; eauto.
+  - eapply pres_D1; eauto.
+  - eapply pres_D2; eauto.
+  - eapply pres_D3; eauto.
+Qed.
+
+Lemma inv2_init : forall nd specs, inv2 (init nd specs).
+Proof.
+  intros nd specs.
+  assert (HE : forall e, E (init nd specs) e = dent) by (intros; unfold E; simpl; destruct e; reflexivity).
+  assert (HD : forall d, D (init nd specs) d = ddir) by (intros; unfold D; simpl; apply nth_repeat_ddir).
+  assert (HT : forall n, T (init nd specs) n = dthr \/ (exists d, T (init nd specs) n = CReq d RAcqSL)
+                         \/ T (init nd specs) n = CDel DAcqSL).
+  { intros n. destruct (init_thread_cases nd specs n) as [Hq|[[d [Hq _]]|Hq]]; eauto. }
+  constructor; intros;
+    try (rewrite HD in *; simpl in *; try discriminate; auto; fail);
+    try (rewrite HE in *; simpl in *; try discriminate; auto; fail);
+    try (destruct (HT n) as [Hq|[[d' Hq]|Hq]]; rewrite Hq in *; simpl in *; discriminate).
+Qed.
+
+Definition inv (st : state) : Prop := inv1 st /\ inv2 st.
+
+Lemma inv_step : forall fixed st t st', inv st -> step fixed st t = Some st' -> inv st'.
+Proof.
+  intros fixed st t st' [H1 H2] H. split; [eapply inv1_step | eapply inv2_step]; eauto.
+Qed.
+
+Lemma inv_exec : forall fixed st l st', exec fixed st l st' -> inv st -> inv st'.
+Proof. induction 1; intros; auto. apply IHexec. eapply inv_step; eauto. Qed.
+
+Lemma inv_reachable : forall fixed st, reachable fixed st -> inv st.
+Proof.
+  intros fixed st (nd & specs & sched & Hok & Hex).
+  eapply inv_exec; eauto. split; [apply inv1_init; auto | apply inv2_init].
+Qed.
+
+(* ------------------------------------------------------------------ *)
+(* safety *)
+
+Lemma inv_safe : forall st, inv st -> safe st.
+Proof.
+  intros st [H1 H2]. split; [|split].
+  - intros n d e Hu.
+    assert (Ho : open_pc (T st n) = Some e) by (destruct Hu as [Hu|Hu]; rewrite Hu; reflexivity).
+    assert (Hr : rd_pc (T st n) = Some e) by (apply open_rd_pc; auto).
+    assert (Hop : e_open (E st e) = true) by (eapply (i_A2 _ H2); eauto).
+    assert (Hd : e_dir (E st e) = d).
+    { apply (i_B3 _ H2 n); destruct Hu as [Hu|Hu]; rewrite Hu; reflexivity. }
+    repeat split; auto.
+    + apply (i_L3b _ H1); auto.
+    + pose proof (i_A3 _ H2 _ Hop) as Hs. rewrite Hd in Hs. eapply (i_A6 _ H2); eauto.
+  - intros d. rewrite (i_A4 _ H2 d). destruct (d_store (D st d)); auto. destruct (e_open (E st n)); auto.
+  - intros d Hh. rewrite (i_A4 _ H2 d) in Hh. destruct (d_store (D st d)) eqn:Hs; try lia.
+    eapply (i_A6 _ H2); eauto.
+Qed.
+
+Lemma safety : forall fixed st, reachable fixed st -> safe st.
+Proof. intros. apply inv_safe. eapply inv_reachable; eauto. Qed.
